@@ -260,17 +260,3 @@ Definition spec_ok_ctx (cc : ctxcfg) (prog : list stmt)
   let '(ok, rest, r) := judge_list cc [] prog calls in
   ok && match rest with [] => true | _ => false end
   && oxkind_eqb r raised && cstate_eqb final (mkC [] []).
-
-(** * The region in which the present code is proved to meet part B
-    Every sudo call either does not pass [watchers] or passes a list: an explicit
-    [watchers=None] ("not given" for run) makes sudo raise TypeError (F-C15b). *)
-Fixpoint sudo_watchers_ok (s : stmt) {struct s} : bool :=
-  match s with
-  | SSudo _ _ k _ => match kw k Watchers with Some ONone => false | _ => true end
-  | SBlock _ body =>
-      (fix go (l : list stmt) : bool :=
-         match l with [] => true | x :: l' => sudo_watchers_ok x && go l' end) body
-  | _ => true
-  end.
-
-Definition guard_prog (prog : list stmt) : bool := forallb sudo_watchers_ok prog.
